@@ -183,7 +183,40 @@ def auto_connect_runs(ctx):
         traces.append({"account": B(account.encode()), "password": B(password.encode()), "events": evs, "scn": [("auto_connect", endian)] + [("att", f) for f in faults], "region_mode": False})
     traces += retry_after_failed_login(ctx)
     traces += region_sequence_runs(ctx)
+    traces += auto_connect_fault_runs(ctx)
     return n, bad, traces
+
+
+def auto_connect_fault_runs(ctx):
+    """Discover.discover(auto_connect=True) of a V3 device while the cloud fails at one chosen step of login-id -> login -> getToken(LE) -> getToken(BE)
+    with an API error code, an HTTP failure or a timeout on every attempt: the failure surfaces as a cloud error (it is not swallowed)."""
+    rng = ctx.rng
+    out = []
+    steps = ["login-id", "login", "getToken", "second getToken"]
+    k = 0
+    for rep in range(ctx.pick(1, 12)):
+        for si, step in enumerate(steps):
+            for fault in ("api", "http", "timeout"):
+                k += 1
+                ident = rand_identity(rng, typ=0xAC, port=6444, devid=rng.getrandbits(48) | 1)
+                ip = "10.8.%d.%d" % (rng.randrange(256), rng.randrange(1, 255))
+                tok, key = rng.randbytes(64), rng.randbytes(32)
+                account, password = rand_text(rng, 12), rand_text(rng, 10)
+                srv = cloudsrv.ModelCloud(account, password, rng=rng)
+                srv.script = ["ok"] * si + ([fault] if fault != "timeout" else ["timeout"] * 3)
+                wrong = rng.randbytes(64).hex(), rng.randbytes(32).hex()
+                # the first udpid is answered with credentials the device rejects, so that a second getToken is needed
+                srv.token_for = lambda u, wrong=wrong: [{"udpId": u, "token": wrong[0], "key": wrong[1]}]
+
+                def tcp(loop, net, tok=tok, key=key, k=k):
+                    landev.LanDevice(loop, net, acdev.ACModel(), version=3, token=tok, key=key, seed=k)
+                v = disc.run_discovery([(0.3, ip, 6445, build(rng, ident, ip, 3))], auto_connect=True, tcp_devices=tcp, cloud_client=srv.client,
+                                       account=account, password=password)
+                v.pop("devices", None)
+                out.append({"account": B(account.encode()), "password": B(password.encode()),
+                            "events": [{"ev": "e2ef", "exc": v["exc"], "fault": fault, "step": step}],
+                            "scn": [("auto_connect_cloud_fault", step, fault)], "region_mode": False})
+    return out
 
 
 def region_sequence_runs(ctx):
@@ -304,8 +337,12 @@ def retry_after_failed_login(ctx):
 
 def judge(ctx, traces, what, canaries=True):
     cans = []
-    if canaries:
-        src = next(t for t in traces if sum(1 for e in t["events"] if e["ev"] == "req" and e["out"] == "ok") >= 3)
+    src = next((t for t in traces if sum(1 for e in t["events"] if e["ev"] == "req" and e["out"] == "ok") >= 3
+                and any(e["ev"] == "req" and bytes(e["path"]).endswith(b"getToken") for e in t["events"])
+                and any(e["ev"] == "req" and bytes(e["path"]).endswith(b"/v1/user/login") for e in t["events"])), None) if canaries else None
+    if canaries and src is None:
+        ctx.notes.append(f"{what}: no execution with a complete login + getToken flow to build canaries from")
+    if src is not None:
         k = next(i for i, e in enumerate(src["events"]) if e["ev"] == "req" and bytes(e["path"]).endswith(b"getToken"))
         c = copy.deepcopy(src)
         f = next(x for x in c["events"][k]["fields"] if bytes(x["k"]) == b"sessionId")
@@ -343,6 +380,8 @@ def judge(ctx, traces, what, canaries=True):
     if canaries:
         if len([i for i in bad if i >= n]) != len(cans):
             raise MachineryError("Trace_Cloud accepted a canary")
+        if not cans and not any(i < n for i in bad):
+            raise MachineryError("no canary could be built and nothing was rejected: the binding of Trace_Cloud is not demonstrated")
         ctx.extra["canaries_rejected"] = ctx.extra.get("canaries_rejected", 0) + len(cans)
 
 
